@@ -116,11 +116,17 @@ def envName (name : Str) : Str := "GALLIA_".toList ++ upper name
 
 /-! ### documents written key by key (what `tomllib` makes of `[a.b]` headers followed by `name = value` lines) -/
 
+/-- the table a path step descends into: the existing table, else a fresh one -/
+def childTbl (old : Option Tree) : Tree :=
+  match old with
+  | some c => if c.isTbl then c else .nil
+  | none => .nil
+
 /-- set the value at a dotted path, creating the tables on the way -/
 def setPath : List Str → Tree → Tree → Tree
   | [], v, _ => v
   | [k], v, t => t.setKey k (fun _ => v)
-  | k :: ks, v, t => t.setKey k (fun old => setPath ks v (match old with | some c => if c.isTbl then c else .nil | none => .nil))
+  | k :: ks, v, t => t.setKey k (fun old => setPath ks v (childTbl old))
 
 /-- `template()`: every registered key with a default becomes `name = default` under its `[section]`; keys without
     a default are only listed in a comment -/
